@@ -67,12 +67,12 @@ Expand(inner, k) ==                       \* iter() / into_vec(): zero runs beco
 CIntoVec(c) == Expand(c.inner, Len(c.inner))
 
 (* scale the first k entries (sorted_non_zero_iter_mut().take(k)): m -> m - 1 stays positive *)
-ScaleTok(v) == IF Class(v) = "pos" THEN <<"pos", v[2] * 2 - 1>> ELSE v       \* magnitudes are doubled first, see MC
+ScaleTok(v) == IF Class(v) = "pos" THEN <<"pos", v[2] - 1>> ELSE v           \* pushed magnitudes are even (MC), scaled ones odd
 CScale(c, k) == [c EXCEPT !.inner = [i \in 1..Len(c.inner) |-> IF i <= k THEN Val(ScaleTok(c.inner[i].v)) ELSE c.inner[i]]]
 
 -----------------------------------------------------------------------------
 (* raw: Seq of tokens *)
-RPush(r, v) == Append(r, v)
+RPush(r, v) == Append(r, IF SignPositiveNonZeroBits(v) THEN v ELSE <<"pz", 0>>)   \* same predicate as the compact push
 RRetain(r) == SelectSeq(r, GreaterThanZero)
 RSortDesc(r) == SortDesc(r, Len(r))
 RScale(r, k) == [i \in 1..Len(r) |-> IF i <= k THEN ScaleTok(r[i]) ELSE r[i]]
